@@ -8,6 +8,9 @@ CONSTANTS
   Kinds = {"perstream", "perentry", "prom"}
   PanicOnEmpty = FALSE
   TypesOfWholeSeries = FALSE
+  LeakLabels = FALSE
+  Pseudo = {FALSE, TRUE}
+  Mixes = {FALSE, TRUE}
 INVARIANTS Faithful SeriesAnnounced
 CONSTRAINT ExportCase
 CHECK_DEADLOCK FALSE
